@@ -101,7 +101,7 @@ func runEnc(c EncCase) (res ev.Result) {
 		b, err := os.ReadFile(logPath)
 		if err == nil && int64(len(b)) >= start {
 			got = b[start:]
-			if bytes.HasSuffix(got, tail) {
+			if bytes.HasSuffix(bytes.ToUpper(got), tail) { // hex digits of either case decode
 				break
 			}
 		}
